@@ -75,10 +75,16 @@ CONSTANTS = {
         ("J_LOW_MAX", _TAPE, r"fn char_from_surrogate_pair\(.*?\(0xDC00\.\.=" + _H + r", 0xD800\.\.=0xDBFF\) => \{", "int"),
         ("J_HIGH_MIN", _TAPE, r"fn char_from_surrogate_pair\(.*?\(0xDC00\.\.=0xDFFF, " + _H + r"\.\.=0xDBFF\) => \{", "int"),
         ("J_HIGH_MAX", _TAPE, r"fn char_from_surrogate_pair\(.*?\(0xDC00\.\.=0xDFFF, 0xD800\.\.=" + _H + r"\) => \{", "int"),
-        ("J_PAIR_SHIFT", _TAPE, r"let n = \(\(\(high - 0xD800\) as u32\) << ([0-9]+)\) \| \(\(low - 0xDC00\) as u32 \+ 0x1_0000\);", "int"),
-        ("J_PAIR_BASE", _TAPE, r"let n = \(\(\(high - 0xD800\) as u32\) << 10\) \| \(\(low - 0xDC00\) as u32 \+ " + _H + r"\);", "int"),
+        # `let n = (((high - 0xD800) as u32) << 10) <op> …(low - 0xDC00) as u32 + 0x1_0000…;`  the pinned tree
+        # combines the halves with `|` (wrong above plane 1), a fixed tree with `+`: the operand literals are
+        # extracted from either spelling and J_PAIR_IS_ADD says which operator the source has; the model follows it.
+        ("J_PAIR_SHIFT", _TAPE, r"let n = \(\(\(high - 0xD800\) as u32\) << ([0-9]+)\) [|+] \(?\(low - 0xDC00\) as u32 \+ 0x1_0000\)?;", "int"),
+        ("J_PAIR_BASE", _TAPE, r"let n = \(\(\(high - 0xD800\) as u32\) << 10\) [|+] \(?\(low - 0xDC00\) as u32 \+ " + _H + r"\)?;", "int"),
         ("J_PAIR_HIGH_SUB", _TAPE, r"let n = \(\(\(high - " + _H + r"\) as u32\) << 10\)", "int"),
-        ("J_PAIR_LOW_SUB", _TAPE, r"let n = \(\(\(high - 0xD800\) as u32\) << 10\) \| \(\(low - " + _H + r"\) as u32 \+ 0x1_0000\);", "int"),
+        ("J_PAIR_LOW_SUB", _TAPE, r"let n = \(\(\(high - 0xD800\) as u32\) << 10\) [|+] \(?\(low - " + _H + r"\) as u32 \+ 0x1_0000\)?;", "int"),
+        # 0 when the two halves are combined with `|`, 1 when with `+` (one capture group that lands on the
+        # last digit of `0xDC00` in the first spelling and on the `1` of `0x1_0000` in the second)
+        ("J_PAIR_IS_ADD", _TAPE, r"let n = \(\(\(high - 0xD800\) as u32\) << 10\) (?:\| \(\(low - 0xDC0|\+ \(low - 0xDC00\) as u32 \+ 0x)([01])", "int"),
         ("J_HEX_SHIFT", _TAPE, r"0\.\.=3 => \*high = \(\*high << ([0-9]+)\) \| parse_hex\(next!\(iter\)\)\? as u16,", "int"),
     ],
 }
